@@ -708,6 +708,7 @@ func runC12(c *Ctx) {
 	}()
 
 	ruleSlab(c, p, "C12.slab")
+	ruleWaitGroupAdd(c, p, "C12.wg")
 
 	// ---- C12.globals
 	rule = "C12.globals"
@@ -820,4 +821,63 @@ func writesThrough(h *ssa.Function, pr *ssa.Parameter, d int) ssa.Instruction {
 		}
 	}
 	return nil
+}
+
+// ---- C12.wg: WaitGroup.Add happens before the goroutine it accounts for is started
+func ruleWaitGroupAdd(c *Ctx, p *core.Program, rule string) {
+	c.R.Rule(rule, "a goroutine is registered with its WaitGroup before it is started: in packages ch and chpool no function that is the target of a `go` statement calls (*sync.WaitGroup).Add - Add inside the new goroutine is unordered with a concurrent Wait (Pool.Close): Wait can return, or the counter can be reused, before the goroutine has registered itself (the race detector reports the WaitGroup's state word); every `go` target that calls Done has a matching Add before the `go` statement in the spawning function")
+	cfg := p.Cfg.Name
+	isWG := func(name string) func(*types.Func) bool {
+		return func(f *types.Func) bool { return core.IsMethod(f, "sync", "WaitGroup", name) }
+	}
+	n := 0
+	for _, fn := range p.Funcs() {
+		pk := pkgOf(fn)
+		if pk == nil || (pk.Path() != core.PkgCh && pk.Path() != core.PkgPool) || fn.Blocks == nil {
+			continue
+		}
+		for _, b := range fn.Blocks {
+			for _, in := range b.Instrs {
+				g, ok := in.(*ssa.Go)
+				if !ok {
+					continue
+				}
+				var target *ssa.Function
+				if mc, ok := g.Call.Value.(*ssa.MakeClosure); ok {
+					target, _ = mc.Fn.(*ssa.Function)
+				} else {
+					target = core.StaticFn(g)
+				}
+				if target == nil || target.Blocks == nil {
+					continue
+				}
+				adds := core.FindCalls(target, isWG("Add"))
+				dones := core.FindCalls(target, isWG("Done"))
+				if len(adds) == 0 && len(dones) == 0 {
+					continue
+				}
+				n++
+				key := core.FuncName(fn) + "/go:" + target.Name()
+				switch {
+				case len(adds) > 0:
+					c.R.Bad(rule, key, cfg, p.Pos(adds[0].Pos()), "the goroutine registers itself with WaitGroup.Add after it has been started: a concurrent Wait (Close) is not ordered with that Add")
+				default:
+					// Done in the goroutine: an Add must precede the go statement in the spawner
+					pre := false
+					for _, a := range core.FindCalls(fn, isWG("Add")) {
+						if core.Dominates(a.(ssa.Instruction), in) {
+							pre = true
+						}
+					}
+					if pre {
+						c.R.Ok(rule, key, cfg, p.Pos(in.Pos()), "Add before go, Done inside")
+					} else {
+						c.R.Bad(rule, key, cfg, p.Pos(in.Pos()), "the goroutine calls Done but the spawning function does not call Add before the go statement")
+					}
+				}
+			}
+		}
+	}
+	c.R.Count("go statements whose target uses a WaitGroup["+cfg+"]", n)
+	c.R.Floor(rule, cfg, n, 1)
 }
